@@ -278,7 +278,8 @@ func packPcr(out []byte, pcr uint64) {
 // 注意，除PTS外，DTS也使用这个函数打包
 func packPts(out []byte, fb uint8, pts uint64) {
 	var val uint64
-	out[0] = (fb << 4) | (uint8(pts>>30) & 0x07) | 1
+	// '0010' or '0011' or '0001' (4 bits) | PTS [32..30] (3 bits) | marker_bit (1 bit)
+	out[0] = (fb << 4) | (uint8(pts>>29) & 0x0e) | 1
 
 	val = (((pts >> 15) & 0x7FFF) << 1) | 1
 	out[1] = uint8(val >> 8)
